@@ -95,7 +95,7 @@ pub fn run(src: &str, what: &str) -> Outcome {
     let (tx, rx) = mpsc::channel();
     let (s, w) = (src.to_string(), what.to_string());
     std::thread::spawn(move || { let _ = tx.send(catch_unwind(AssertUnwindSafe(|| check(&s, &w)))); });
-    match rx.recv_timeout(Duration::from_millis(3000)) {
+    match rx.recv_timeout(crate::tmo(3000)) {
         Err(_) => Outcome { fails: true, observed: "no result after 3 s (hang)".into(), expected },
         Ok(Err(_)) => Outcome { fails: true, observed: "panic".into(), expected },
         Ok(Ok(Ok(()))) => Outcome { fails: false, observed: "agree".into(), expected },
@@ -229,7 +229,7 @@ pub fn run_costs(src: &str, costs: &[u8]) -> Outcome {
     let (tx, rx) = mpsc::channel();
     let (s, c) = (src.to_string(), costs.to_vec());
     std::thread::spawn(move || { let _ = tx.send(catch_unwind(AssertUnwindSafe(|| check_costs(&s, &c)))); });
-    match rx.recv_timeout(Duration::from_millis(3000)) {
+    match rx.recv_timeout(crate::tmo(3000)) {
         Err(_) => Outcome { fails: true, observed: "no result after 3 s (hang)".into(), expected },
         Ok(Err(_)) => Outcome { fails: true, observed: "panic".into(), expected },
         Ok(Ok(Ok(()))) => Outcome { fails: false, observed: "agree".into(), expected },
